@@ -171,6 +171,10 @@ func checkC15(c *Ctx) {
 		for i := 0; i < st.NumFields(); i++ {
 			switch st.Field(i).Type().Underlying().(type) {
 			case *types.Slice, *types.Map, *types.Pointer, *types.Interface, *types.Chan:
+				if !canHoldBytes(st.Field(i).Type(), map[types.Type]bool{}) {
+					// e.g. a pointer to a struct of counters: it cannot alias or retain a frame's bytes
+					continue
+				}
 				bad = true
 				c.Fail("C15-R4", "handler-field("+st.Field(i).Name()+")", st.Field(i).Pos(), "refuted", "the handler has a reference-typed field that could retain or share per-frame data between messages")
 			}
@@ -359,4 +363,40 @@ func ruleGlobalsInitOnly(c *Ctx, rule string, pkgs []string) {
 	if nbad == 0 {
 		c.OK(rule, "globals-init-only", token.NoPos, fmt.Sprintf("%d package-level variables of the rtcm packages are written only by initialisers", nvars))
 	}
+}
+
+// canHoldBytes: a value of type t can (transitively) refer to a byte slice or
+// to data of unknown type (interface, function, channel), i.e. it could keep
+// or share a frame's raw data.  Strings are immutable and scalar fields carry
+// no reference.
+func canHoldBytes(t types.Type, seen map[types.Type]bool) bool {
+	if seen[t] {
+		return false
+	}
+	seen[t] = true
+	switch u := t.Underlying().(type) {
+	case *types.Basic:
+		return u.Kind() == types.UnsafePointer
+	case *types.Slice:
+		if b, ok := u.Elem().Underlying().(*types.Basic); ok && b.Kind() == types.Byte {
+			return true
+		}
+		return canHoldBytes(u.Elem(), seen)
+	case *types.Array:
+		return canHoldBytes(u.Elem(), seen)
+	case *types.Pointer:
+		return canHoldBytes(u.Elem(), seen)
+	case *types.Map:
+		return canHoldBytes(u.Key(), seen) || canHoldBytes(u.Elem(), seen)
+	case *types.Struct:
+		for i := 0; i < u.NumFields(); i++ {
+			if canHoldBytes(u.Field(i).Type(), seen) {
+				return true
+			}
+		}
+		return false
+	case *types.Interface, *types.Chan, *types.Signature:
+		return true
+	}
+	return true
 }
